@@ -222,7 +222,8 @@ def analyse(facts, tier):
     # the buckets by what they receive (not by what they are called): a local vector that gets `push_back(events[i])` under
     # `type == T`; the bucket filled in the final else (no positive type test) is the one that holds the note-ons
     role = {}
-    for tgt_, src_, gf_, loc_ in append_sites(se):
+    from .c01 import _append_wrappers
+    for tgt_, src_, gf_, loc_ in append_sites(se, _append_wrappers(facts)):
         if mentions(src_, member_named('events')):
             bid_ = tgt_['id']
             tys = set()
